@@ -31,10 +31,8 @@ def premise_variants(arg):
     out = [prems]
     if len(prems) >= 2:
         out.append(prems[::-1])
-        out.append(prems[1:] + prems[:1])
     if prems:
         out.append(prems + prems[:1])
-        out.append(prems[:1] + prems)
     seen = []
     for v in out:
         if v not in seen:
@@ -55,7 +53,7 @@ def fn(drv, logic, argstr, seed, symbolic=True, fixed=None, options_only=False):
         loop = 0 if options_only else drv.pick(2, 'step_loop')
         vi = 0 if options_only else drv.pick(len(variants), 'premises')
     tab = prover.build(logic, variants[vi], seed, step_loop=bool(loop), is_group_optim=g, is_rank_optim=r,
-                       max_steps=400)
+                       max_steps=250)
     return dict(cls=prover.outcome(tab), steps=len(tab.history), loop=loop, variant=vi,
                 rules=prover.rules_applied(tab))
 
@@ -115,7 +113,7 @@ def plan(ctx):
                'e:La:Mb:Mc:Md', 'e:Ma:MLLKbNb', 'e:LLa:Mb:Mc']
     units = []
     for name in names:
-        sel = fam.select(pool, 12 if ctx.quick else 80, ctx.seed + 3, name) + special
+        sel = fam.select(pool, 9 if ctx.quick else 80, ctx.seed + 3, name) + special
         if not ctx.quick:
             sel += fam.random_args(ctx.seed, 20)
         sel = list(dict.fromkeys(sel))
@@ -147,10 +145,10 @@ def run(ctx):
     rep.coverage = dict(
         states=paths, transitions=trans, traces_validated_against_impl=0, samples=samples,
         logic_argument_pairs=pairs, pairs_with_limit_outcomes_only=limit_only,
-        bounds=dict(arguments='12 per logic by seed + 9 fixed' if ctx.quick else '80 per logic + 6 fixed + 20 random',
+        bounds=dict(arguments='9 per logic by seed + 9 fixed' if ctx.quick else '80 per logic + 6 fixed + 20 random',
                     options='both flags symbolic', call_mode='build | step loop (symbolic pick)',
-                    premises='original, reversed, rotated, first premise duplicated front/back (symbolic pick)',
-                    tie_break_seeds=2 if ctx.quick else 6, max_steps=400,
+                    premises='original, reversed, first premise repeated at the end (symbolic pick)',
+                    tie_break_seeds=2 if ctx.quick else 6, max_steps=250,
                     note='call mode and premise variants are explored on the first seed; further seeds vary the options'),
         functions_executed=['Tableau.build/step', 'Rule._extend_targets/_select_best_target',
                             'Tableau._get_group_application/_select_optim_group_application',
